@@ -346,6 +346,10 @@ def finish(mod, plan, tier, seed, results, t0, nunits, post=None):
         'status=%s wall=%.1fs' % (prop, tot['paths'], tot['validated'], stats['decisions'], stats['solver_calls'],
                                   stats['solver_time'], stats['cache_hits'], stats['assert_unsat'],
                                   stats['assert_queries'], dict(status), wall))
+    slow = sorted([r for r in results if 'engine_error' not in r and not r.get('twin') and 'wall' in r], key=lambda r: -r['wall'])[:3]
+    for r in slow:
+        if r['wall'] > 20:
+            log('  slow unit: %.0fs %d paths %s' % (r['wall'], r['paths'], repr(r['unit'][1:3])[:300]))
     if new:
         return 1
     if inconclusive:
